@@ -2116,10 +2116,7 @@ def reset_plugins(scope: str) -> None:
     tert(type(scope) is str, 'scope must be str')
     if scope not in _plugins:
         return
-    [
-        remove_plugin(scope, plugin)
-        for plugin in _plugins[scope]
-    ]
+    _plugins[scope].clear()
 
 def run_plugins(scope: str, tape: Tape, stack: Stack, cache: dict) -> list:
     """Runs all plugins of the given scope."""
